@@ -351,3 +351,88 @@ Proof.
 Qed.
 
 End Total.
+
+(* ------------------------------------------------------------ closed statements *)
+
+(* Render totality.  For every schema satisfying [tot_schema] (groups acyclic; struct-typed slots
+   name a type of SS and have a default of depth <= DD; list defaults hold no pointers), every
+   encoder configuration with the default-expansion guard, every stored value v (any bytes, any
+   pointer kinds, discriminants of no member, ...), every type id: with
+       fuel >= (depth v + |SS| * (DD + 1)) * (G + 2) + G + 1
+   Encode returns text or one of the enumerated errors [err]; it never runs out of fuel (and the
+   result type has no panic outcome).  _partial: (a) the list-default premise is a restriction
+   (necessary in some form: render_listdefault_refuted); (b) which inputs give [Err] is not
+   characterised by a theorem (ENotFound/ENotStruct/ENotEnum: a type id that does not resolve to
+   a node of the right kind; EBudget: read sizes above the budget; EIllTyped: a pointer-less list
+   where a list of pointers / structs is expected; see docs/C20.md). *)
+Theorem render_total_partial : forall ffmt c sc grank G DD SS fuel id v,
+  c_cut c = true -> tot_schema sc grank G DD SS -> (fuel_bound G DD SS v <= fuel)%nat ->
+  (exists out, render ffmt c sc fuel id v = Ok out) \/ (exists e, render ffmt c sc fuel id v = Err e).
+Proof. intros. eapply render_total_sect; eassumption. Qed.
+
+(* the same on a used encoder (any cache state) *)
+Theorem encode_total_partial : forall ffmt c sc grank G DD SS fuel id v st,
+  c_cut c = true -> tot_schema sc grank G DD SS -> (fuel_bound G DD SS v <= fuel)%nat ->
+  fst (encode ffmt c sc fuel id v st) <> OutOfFuel.
+Proof. intros. eapply encode_total_sect; eassumption. Qed.
+
+(* parse_render without the success premise: within the fuel bound the outcome is either an
+   enumerated error or a text that reads back as exactly the field values shown.
+   _partial: the error alternative is not excluded (see render_total_partial (b)). *)
+Theorem render_faithful_total_partial : forall ffmt c sc grank G DD SS fuel id v,
+  schema_ok sc -> rval_ok v ->
+  c_cut c = true -> tot_schema sc grank G DD SS -> (fuel_bound G DD SS v <= fuel)%nat ->
+  (exists out t, render ffmt c sc fuel id v = Ok out /\ shown ffmt c sc fuel id v = Ok t /\
+                 out = print t /\ wf_tval t /\ parse_text out = Some t)
+  \/ (exists e, render ffmt c sc fuel id v = Err e).
+Proof.
+  intros ffmt c sc grank G DD SS fuel id v Hok Hv Hcut Hsc Hf.
+  destruct (render_total_partial ffmt c sc grank G DD SS fuel id v Hcut Hsc Hf) as [[out Ho]|He]; [left|now right].
+  destruct (parse_render _ _ _ _ _ _ _ Hok Hv Ho) as (t & H1 & H2 & H3 & H4).
+  exists out, t. repeat split; assumption.
+Qed.
+
+(* ---- non-vacuity: the recursive type  struct Node { next :Node; }  and the 3-cycle C -> D -> E -> C *)
+Example rec_schema_total : tot_schema rec_schema (fun _ => O) 0 1 [1].
+Proof.
+  intros id dc doff fc fields H. cbn [rec_schema s_nodes lookup] in H.
+  destruct (1 =? id); [|discriminate]. inversion H; subst. split; [lia|].
+  repeat constructor.
+Qed.
+
+Example rec_value_total :
+  fuel_bound 0 1 [1] rec_value = 9%nat /\
+  render no_floats cfg_fixed rec_schema 9 1 rec_value
+  = Ok [40; 110; 101; 120; 116; 32; 61; 32; 40; 110; 101; 120; 116; 32; 61; 32; 40; 41; 41; 41].
+Proof. split; vm_compute; reflexivity. Qed.
+
+Example cyc3_schema_total : tot_schema cyc3_schema (fun _ => O) 0 1 [1; 2; 3].
+Proof.
+  intros id dc doff fc fields H. cbn [cyc3_schema s_nodes lookup] in H.
+  destruct (1 =? id); [inversion H; subst; split; [lia|]; (constructor; [|constructor]); unfold tot_field; cbn; split; [auto 6|lia]|].
+  destruct (2 =? id); [inversion H; subst; split; [lia|]; (constructor; [|constructor]); unfold tot_field; cbn; split; [auto 6|lia]|].
+  destruct (3 =? id); [inversion H; subst; split; [lia|]; (constructor; [|constructor]); unfold tot_field; cbn; split; [auto 6|lia]|discriminate].
+Qed.
+
+(* ---- the list-default premise cannot be dropped:  struct L { l :List(L) = [()]; }
+   The default of l is a one-element list whose element has a null l, whose default is that list
+   again.  The guard of fix 4b73eba covers struct defaults only: the walk diverges for every fuel
+   (Go: fatal stack overflow), on the fixed configuration. *)
+Definition ldef_list : rval := RPtrs [RStruct [] []].
+Definition ldef_schema : schema :=
+  mkSchema [(1, NStruct 0 0 56 [mkField [108] 2 65535 (FSlot 0 (TList 24 (TStruct 1)) 0 ldef_list 32 24 40)])] 100.
+
+Lemma ldef_diverges : forall fuel,
+  (forall exp st, shown_struct no_floats cfg_fixed ldef_schema fuel exp 1 [] [] st = OutOfFuel) /\
+  (forall exp st, shown_list no_floats cfg_fixed ldef_schema fuel exp (TStruct 1) ldef_list st = OutOfFuel).
+Proof.
+  induction fuel as [|f [IHs IHl]]; [split; reflexivity|]. split.
+  - intros exp st. destruct st as [b|]; simpl; unfold bind; simpl; rewrite IHl; reflexivity.
+  - intros exp st. simpl. unfold bind. simpl. unfold bind. rewrite IHs. reflexivity.
+Qed.
+
+Example render_listdefault_refuted : forall fuel,
+  render no_floats cfg_fixed ldef_schema fuel 1 (RStruct [] []) = OutOfFuel.
+Proof.
+  intros fuel. unfold render, encode. cbn [as_struct]. rewrite (proj1 (ldef_diverges fuel)). reflexivity.
+Qed.
